@@ -112,6 +112,25 @@ PROPS["C20"] = dict(
                  "context cancellation by the caller is not injected"],
 )
 
+PROPS["C08"] = dict(
+    simulated=True,
+    level="exploration",
+    instrument=ENGINE_FILES,
+    budget=dict(quick=40, thorough=900),
+    rule="statement texts from three seeded sources - (a) structured generator of all eight statement kinds (semantically valid, executes deep: patterns with "
+         "OPTIONAL, aliases, bounds, GROUP BY / aggregates, ORDER BY, LIMIT incl. negative / fractional / huge / non-int64 limits), (b) random derivations of the "
+         "exported grammar.BQL() table with sampled token texts, (c) random byte strings - half of them damaged the way an aborted or mangled request is "
+         "(truncation after a token, token deletion / duplication / swap / replacement, delimiter injected inside a token, token cut, early error followed by a "
+         "long tail, trailing tokens after the final ';'); executed through server.BQL as the client of a simulated run over empty and populated stores, plain or "
+         "memoized, with drawn chanSize / bulkSize / processor count / pacing / emission order. Oracle: exactly one of (table, error); no panic in the caller or in "
+         "any engine goroutine; the call returns (no deadlock / step cap); no goroutine of the call is left (bubble stack dump, lexer included). "
+         "Every execution counts as non-trivial (a table or an intended rejection); distinct = distinct (text, data)",
+    components_real=ENGINE_REAL,
+    components_stub=["simulated storage driver, fault-free (gate, pacing, emission order)", "seeded scheduler in a synctest bubble"],
+    assumptions=["no exhaustiveness over byte strings is claimed: the input dimension is seeded generation, the simulator contributes the goroutine / termination / leak dimension",
+                 "log.Fatalf / os.Exit in the engine terminates the shard process; the journal identifies the case and it is re-run alone to confirm"],
+)
+
 # ---------------------------------------------------------------------------
 # Texts for MANIFEST.json (level claimed, trusted base, technique)
 MANIFEST_TEXT = {}
@@ -142,3 +161,7 @@ MANIFEST_TEXT["C20"] = dict(
     text="fault enumeration: for every statement of a seeded corpus, every driver call it makes (by position in the recorded call trace) is failed in every applicable mode under the same tape, and the statement must return an error in bounded steps leaving no goroutine",
     note="trusted base: x/sim scheduler, simulated driver, instrumenter; corpus is sampled, (position x mode) is enumerated per statement",
     technique="deterministic simulation with fault injection: seeded scheduler over the instrumented engine, simulated storage driver with a per-call fault plan, same-tape re-execution per fault position, bubble-end goroutine leak detection")
+MANIFEST_TEXT["C08"] = dict(
+    text="seeded exploration of statement texts (structured, grammar-derived, mutated, random) executed end to end inside the simulator, with termination, panic and goroutine-leak oracles on every goroutine the engine starts",
+    note="trusted base: x/sim scheduler + synctest bubble accounting, instrumenter, simulated driver; inputs are sampled",
+    technique="deterministic simulation: server.BQL pipeline as a simulated client over the instrumented engine and a simulated driver; bubble-end goroutine accounting; child-process journal for process-killing failures; shrinking of text and data")
